@@ -85,3 +85,11 @@ Fixpoint has_blank_key (j : json) : bool :=
   | JObj kvs => existsb (fun kv => match fst kv with [] => true | _ => false end || has_blank_key (snd kv)) kvs
   | _ => false
   end.
+
+(** ** "the same error for every null", literally.  A visible failure-null whose site admits
+    exactly one error gets that error under every schedule; a site admitting several (two non-null
+    fields of one object both failing, a failing item and a failing sibling …) gets the one that is
+    noticed first, which the schedule decides (known finding admissible-error-differs). *)
+Definition single_candidate (root : selset) : bool :=
+  forallb (fun x : site => match snd x with [_] => true | _ => false end) (visible_nulls root).
+Definition excl_admissible_error_differs (root : selset) : bool := negb (single_candidate root).
